@@ -59,7 +59,7 @@ func selectProgs(cfg Cfg) []progenum.Prog {
 	var progs []progenum.Prog
 	poss := progenum.Positions()
 	quickPos := map[string]bool{"P01_tail": true, "P02_nontail": true, "P03_if_then_nontail": true, "P04_if_early_return": true, "P05_else_nontail": true,
-		"P06_if_else_returns": true, "P08_for3_body": true, "P09_loop_before_control": true, "P13_block_nontail": true, "P15_closure_body": true, "P19_method_ptr": true}
+		"P06_if_else_returns": true, "P08_for3_body": true, "P14_block_tail": true, "P09_loop_before_control": true, "P13_block_nontail": true, "P15_closure_body": true, "P19_method_ptr": true}
 	var forms []progenum.Form
 	switch cfg.Prop {
 	case "C05":
